@@ -62,7 +62,7 @@ fn sent_is_serialized(port: &RPort<'_>, len: usize, want_len: usize) -> bool {
 }
 
 // @harness c10_send_sync
-// @props C10 C08 C12 C03:thorough C17:thorough
+// @props C10:quick C08:quick C12:quick C03:quick C17:thorough
 // @tier quick
 // @variant lists2
 // @stubbing yes
@@ -104,7 +104,7 @@ fn c10_send_sync() {
 }
 
 // @harness c10_follow_up
-// @props C10 C08 C03 C17:thorough
+// @props C10:quick C08:quick C03:quick C17:quick
 // @tier quick
 // @variant lists2
 // @stubbing yes
@@ -155,7 +155,7 @@ fn c10_follow_up() {
 }
 
 // @harness c10_delay_resp
-// @props C10 C08 C03 C17
+// @props C10:quick C08:quick C03:thorough C17:thorough
 // @tier quick
 // @variant lists2
 // @stubbing yes
@@ -216,7 +216,7 @@ fn c10_delay_resp() {
 }
 
 // @harness c10_pdelay_resp
-// @props C10 C14 C03:thorough C17:thorough
+// @props C10:quick C14:quick C03:thorough C17:thorough
 // @tier quick
 // @variant lists2
 // @stubbing yes
@@ -260,7 +260,7 @@ fn c10_pdelay_resp() {
 }
 
 // @harness c10_pdelay_resp_follow_up
-// @props C10 C14 C03:thorough C17:thorough
+// @props C10:quick C14:quick C03:thorough C17:thorough
 // @tier quick
 // @variant lists2
 // @stubbing yes
